@@ -1,3 +1,4 @@
+import SunriseVerif.Model.Result
 /-!
 C20 — the relation proved by `zkp.ValidityProofCircuit` (x/da/zkp/zkp.go):
   private `ShardHash` h, public `ShardDoubleHash` y, constraint `MiMC(h) = y` over the BN254 scalar field.
@@ -30,5 +31,21 @@ def relBytes (mimc : Nat → Nat) (h : Nat) (y : List UInt8) : Prop := R mimc h 
 
 instance (mimc : Nat → Nat) (h : Nat) (y : List UInt8) : Decidable (relBytes mimc h y) := by
   unfold relBytes; exact inferInstance
+
+/-- The proof loop of `msgServer.SubmitValidityProof` (after the sender/status/period checks, which belong to the DA
+    state machine): `proofs[k]` is characterised by the value `MiMC(h_k)` of the shard hash it was generated from
+    (Groth16 soundness/completeness: it verifies exactly against public inputs satisfying the relation),
+    `ys` are the stored `ShardDoubleHashes`. -/
+def submitValidityProof (indices : List Int) (proofs : List Nat) (ys : List (List UInt8)) : Res Unit :=
+  if indices.length ≠ proofs.length then .err "indices-proofs-mismatch"
+  else
+    let rec go : List Int → List Nat → Res Unit
+      | j :: js, m :: ms =>
+        if (ys.length : Int) ≤ j then .err "index-overflow"
+        else if j < 0 then .panic .indexRange            -- `ShardDoubleHashes[j]` with a negative j (S5)
+        else if m = decode (ys.getD j.toNat []) then go js ms
+        else .err "verify"
+      | _, _ => .ok ()
+    go indices proofs
 
 end Sunrise.Zk
